@@ -85,8 +85,8 @@ theorem window_transpose (frame : ℤ → ℤ → α) (fy fx yy xx : ℤ) :
 /-- the masks use `sig_shape[0]` for the y centre / size and `sig_shape[1]` for x with the same
 centre expression on both axes (checked by the translator, see `Gen.mask_center`), and the
 refinement radius and re-anchoring treat the two axes alike -/
-theorem axes_alike (r y x h w : ℤ) : Gen.refine_r r y x h w = Gen.refine_r r x y w h := by
-  unfold Gen.refine_r; omega
+theorem axes_alike (r y x h w : ℤ) : Model.refine_r r y x h w = Model.refine_r r x y w h := by
+  unfold Model.refine_r; omega
 
 /-! ### The composed pipelines (model level) -/
 
